@@ -153,11 +153,22 @@ def run(ctx: Ctx) -> None:
         # + the stray marks: "another connection's thread moves between A's rejection and A's stray input" is its own class
         return (move, others, s["mx"], len(s["serving"]), len(s["backlog"]), _items(s["flag"]), _items(s["mid"]))
 
-    paths = g.edge_cover_paths(ctx.rng, max_paths=220 if ctx.quick else 4000, key=key, max_len=200)
+    def key_stray(s, lab, d):
+        # steps of ANOTHER connection's threads while some connection's stray mark is set (= between a rejection and
+        # the stray input stream it announces) are covered first and completely; everything else is one class here
+        fl = _items(s["flag"])
+        marked = [c for c, v in (fl if fl and isinstance(fl[0], tuple) else enumerate(fl)) if v and c > 0]
+        if marked and lab.startswith(("C(", "H(")) and int(lab[2:-1]) not in marked:
+            return key(s, lab, d)
+        return "rest"
+
+    paths = g.edge_cover_paths(ctx.rng, max_paths=80 if ctx.quick else 600, key=key_stray, max_len=200)
+    ctx.extra["schedules_covering_steps_inside_a_stray_window"] = len(paths)
+    paths += g.edge_cover_paths(ctx.rng, max_paths=(220 if ctx.quick else 2200) - len(paths), key=key, max_len=200)
     ctx.extra["schedules_from_edge_cover"] = len(paths)
     ctx.extra["edge_classes"] = len({key(g.state(u), lab, g.state(v)) for u, es in g.out.items() for lab, v in es})
     if not ctx.quick:
-        paths += g.random_paths(ctx.rng, 3000, 200)
+        paths += g.random_paths(ctx.rng, 1200, 200)
     ctx.rule = ("case = one interleaving (sequence of single-thread steps loop / client c / handler c) of 2-3 "
                 "connections, taken from a path of TLC's state graph, forced on the real threads and completed to the "
                 "end; non-trivial = distinct schedules in which >= 2 connections were accepted")
